@@ -77,7 +77,7 @@ func Load(dir string, patterns ...string) (*Program, error) {
 		for _, ip := range imps {
 			visit(ip)
 		}
-		if isModulePkg(tp.Path()) {
+		if isModulePkg(tp.Path()) && tp.Path() != vrtPkg {
 			if sp := p.Pkgs[tp.Path()]; sp != nil {
 				order = append(order, sp)
 			}
